@@ -6,7 +6,7 @@ from vlib import coqrun
 from vlib.common import COQ
 
 STATIC = ["C14S/PyList.v", "C14S/StackSpec.v", "C14S/StackSpecProofs.v", "C14S/Spill.v", "C14S/SpillProofs.v", "C14S/SpillInv.v",
-          "C14S/ReorderProofs.v", "C14S/ReorderFull.v", "C14S/Script.v"]
+          "C14S/ReorderProofs.v", "C14S/ReorderFull.v", "C14S/CallProofs.v", "C14S/Script.v"]
 PER_RUN = ["C14S/GenStackModel.v", "C14S/TieStackModel.v", "C14S/PropsStack.v"]
 IMPORTS = "From Verif Require Import Base.PyInt C14S.PyList C14S.StackSpec C14S.Spill C14S.Script.\n"
 NEXT0 = 4096
@@ -382,7 +382,7 @@ def gen_scenario(rnd, ids, big):
                 xs = rnd.sample(cur, min(k, len(cur)))
             c = ("popmany", list(dict.fromkeys(xs)) + ([rnd.choice(pool)] if wild else []))
         elif r < 0.945 and height >= 1:
-            kind = rnd.choice([0, 0, 1, 2])
+            kind = rnd.choice([0, 0, 2])    # (`ret` needs an exact frame: see gen_call_scenario)
             cand = list(dict.fromkeys([x for x in cur if x % 4 != 2] + sp_keys)) + [p for p in pool if p % 4 == 0]
             if kind == 0:
                 nops, nouts, code = rnd.choice([0, 1, 2, 3, 5, 8, 12, 18]), rnd.randrange(0, 4), 0
@@ -398,6 +398,7 @@ def gen_scenario(rnd, ids, big):
             live_pool = [x for x in cur if x % 4 == 1 and (x not in ops or rnd.random() < 0.3)]
             live = rnd.sample(live_pool, min(len(live_pool), rnd.randrange(0, 4))) + [f for f in fresh if rnd.random() < 0.7]
             rnd.shuffle(live)
+            live = list(dict.fromkeys(live))      # next_liveness is an OrderedSet
             c = ("inst", kind, code, ops, fresh, live, rnd.random() < 0.4, rnd.random() < 0.2)
         elif r < 0.955:
             c = ("push", rnd.choice([p for p in pool if p % 4 == 0]))
@@ -776,7 +777,86 @@ def corpus_checks(ctx, tier):
                     fails.append(("failing-input", f"{sig}{args} returns a different result under {cfg.name} than under legacy-gas-cancun",
                                   {"config": cfg.name, "source": src, "call": f"{sig} {args}", "legacy": [r0.ok, r0.out.hex()], "venom": [r.ok, r.out.hex()]}))
                     break
+    call_family_checks(ctx, tier, stats, fails)
     return stats, fails
+
+
+def call_family_checks(ctx, tier, stats, fails):
+    """internal-call convention on real compiles: seeded contracts with internal functions of 0..20 word arguments,
+    memory-passed structs/arrays in between, 0..6 returns; inlining disabled (so invoke/param/ret survive) and enabled.
+    Checks: invoke/param arity on the final IR, per-instruction validation incl. invoke (arguments on top in order at the
+    JUMP), ret (frame is exactly values + return pc) and every function prologue, results equal the legacy pipeline."""
+    from vyper.compiler.phases import CompilerData
+    from vyper.compiler.settings import anchor_settings
+    from vlib import c14s_corpus as C
+    from vlib import c14s_tv as TV
+    from vlib import configs
+    from vlib.evm import Chain
+
+    rnd = ctx.rng("callfamily")
+    quick = tier == "quick"
+    cfgs = [configs.Config(True, "gas", "cancun", flags=["disable_inlining"]),
+            configs.Config(True, "none", "london", flags=["disable_inlining"]),
+            configs.Config(True, "O3", "prague", inline_threshold=0), configs.Config(True, "codesize", "shanghai")]
+    if not quick:
+        cfgs += [c for c in configs.configs(tier) if c.venom][::9]
+    stats.setdefault("invokes", 0)
+    stats.setdefault("rets_validated", 0)
+    for k in range(2 if quick else 10):
+        src, sigs = C.gen_call_family(rnd, nfun=5 if quick else 7)
+        try:
+            ref = configs.compile_src(src, configs.Config(False, "gas", "cancun"), formats=("bytecode", "method_identifiers"))
+        except Exception as e:
+            ctx.log(f"call family: legacy reference does not compile: {type(e).__name__}: {e}")
+            continue
+        chr_ = Chain("cancun")
+        ra = chr_.deploy(bytes.fromhex(ref["bytecode"][2:]))
+        xs = [0, 5, rnd.randrange(2**256)]
+        calls = [(s, x) for s in sigs for x in xs]
+        mk = lambda s, x: int(ref["method_identifiers"][s], 16).to_bytes(4, "big") + x.to_bytes(32, "big")  # noqa
+        want = [chr_.call(ra, mk(s, x)) for s, x in calls]
+        for cfg in cfgs:
+            try:
+                with C.EdgeRecorder() as rec, TV.InstRecorder() as tv:
+                    cd = CompilerData(src, settings=cfg.settings())
+                    with anchor_settings(cd.settings):
+                        cd.assembly_runtime
+                        code = cd.bytecode
+                        vctx = cd.venom_runtime
+            except Exception as e:
+                import traceback
+                fails.append(("failing-input", f"venom back end crashes on an internal-call contract under {cfg.name}: {type(e).__name__}: {e}"[:300],
+                              {"config": cfg.name, "source": src, "trace": traceback.format_exc()[-1500:]}))
+                continue
+            stats["compiles"] += 1
+            stats["instructions_validated"] += tv.n_ok
+            stats["instructions_skipped"] += tv.n_skip
+            stats["rets_validated"] += tv.by_op.get("ret", 0)
+            n, bad = C.arity_disagreements(vctx)
+            stats["invokes"] += n
+            if bad:
+                fails.append(("failing-input", f"invoke / param / ret arity disagrees under {cfg.name}: {bad[0]['problem']}",
+                              {"config": cfg.name, "source": src, "disagreements": bad[:3]}))
+            if tv.fail:
+                fails.append(("failing-input", f"internal-call convention: emitted stack manipulation does not match under {cfg.name}: "
+                              + tv.fail[0]["instruction"][:80] + ": " + tv.fail[0]["problem"][:120],
+                              {"config": cfg.name, "source": src, "failures": tv.fail[:3]}))
+            nj, badj = C.join_disagreements(rec.records)
+            stats["join_blocks"] += nj
+            if badj:
+                fails.append(("failing-input", f"stack layouts of the predecessors of a join block disagree under {cfg.name}",
+                              {"config": cfg.name, "source": src, "disagreements": badj[:3]}))
+            ch2 = Chain(cfg.evm)
+            addr = ch2.deploy(code)
+            for (s, x), r0 in zip(calls, want):
+                r = ch2.call(addr, mk(s, x))
+                stats["calls"] += 1
+                if (r.ok, r.out) != (r0.ok, r0.out):
+                    fails.append(("failing-input", f"{s}({x}) returns a different result under {cfg.name} than under legacy-gas-cancun "
+                                  "(arguments / return values of an internal call permuted or lost)",
+                                  {"config": cfg.name, "source": src, "call": f"{s}({x})", "legacy": [r0.ok, r0.out.hex()],
+                                   "venom": [r.ok, r.out.hex()]}))
+                    break
 
 
 # ------------------------------------------------------------------ entry point
@@ -815,7 +895,7 @@ def _part_stack(ctx) -> int:
         for x in bad[:3]:
             ctx.violation("correspondence-broken", "translated StackModel method disagrees with CPython", x)
     # (2) spiller / reorder exact-output differential + (3) EVM execution of the real emitted assembly
-    scen, stats, bad = spill_differential(ctx, 400 if quick else 3000)
+    scen, stats, bad = spill_differential(ctx, 320 if quick else 3000)
     total += stats["cmds"]
     ctx.corr["spill_scenarios"] = stats
     oracle_bad = [dict(x, initial_stack=m0, classes=dict(classes), commands=[list(map(str, c)) for c in cmds])
